@@ -1,3 +1,14 @@
 import Uflow.Props.C18
 open Uflow.Props.C18
 #print axioms C18_u32_lt
+#print axioms C18_ratio_owed
+#print axioms C18_ratio
+#print axioms C18_ratio_strict
+#print axioms C18_frame_lengths
+#print axioms C18_syn_datagram_full
+#print axioms C18_only_syn_triggers
+#print axioms C18_syn_outcomes
+#print axioms C18_accept_owed
+#print axioms C18_timer_accounting
+#print axioms C18_other_sends
+#print axioms C18_undersized_ignored
